@@ -257,6 +257,25 @@ func vbBody(thread *starlark.Thread, fn *starlark.Builtin, args starlark.Tuple, 
 	}
 	h := sha256.New()
 	fmt.Fprintf(h, "label %q\nvals %s\n", lab, vals.String())
+	// The sources the engine hands a body (self.sources: absolute paths) are processed as a SET, sorted: the order and
+	// multiplicity of the entries of sources= are not inputs dawn tracks (only the set of dependencies is recorded), and
+	// a body that depended on them would go stale on a mere reordering. That is reported as an observation, not tested.
+	{
+		var abs, rest []string
+		seen := map[string]bool{}
+		for _, r := range reads {
+			if filepath.IsAbs(r) {
+				if !seen[r] {
+					seen[r] = true
+					abs = append(abs, r)
+				}
+			} else {
+				rest = append(rest, r)
+			}
+		}
+		sort.Strings(abs)
+		reads = append(abs, rest...)
+	}
 	for _, r := range reads {
 		p := filepath.Join(root, filepath.FromSlash(r))
 		if filepath.IsAbs(r) {
